@@ -1,15 +1,23 @@
 """Union of all case generators / spec predicates, keyed by modelled function name."""
-import mpfcases, cxcases, api
+import mpfcases, cxcases, api, ctxcases
 
 
 def make(rng, fn, n):
     if fn == "API_OPS": return api.api_cases(rng, n)
     if fn == "API_F": return api.fcases(rng, n)
+    if fn in CTX: return ctxcases.make_cases(rng, fn, n)
     if fn in cxcases.GENS: return cxcases.make_cases(rng, fn, n)
     return mpfcases.make_cases(rng, fn, n)
 
 
+CTX = {"mpf_mag", "mpc_mag", "int_mag", "mpq_mag", "nint_distance_mpf", "nint_distance_mpc", "nint_distance_mpq",
+       "mpf_isint", "mpf_isnpint", "mpc_isint", "mpf_class", "CTX_mpf_shift", "CTX_mpf_frexp", "pickle_roundtrip",
+       "from_float_parts", "to_float_parts"}
+
+
 def spec(case, out):
+    if case.exact is not None and case.exact[0] in ("mag", "mag2", "nintd", "bool", "list", "v0", "tuple", "tofloat") or case.fn == "from_float_parts":
+        return ctxcases.spec_check(case, out)
     if case.fn in cxcases.GENS and case.exact is not None and case.exact[0] in (
             "cv", "cv0", "cv1", "cvpow", "cmod", "csqrt", "ints", "contain1", "contain2", "ccontain", "ivcmp") or \
             (case.fn in ("mpc_abs",) and case.exact is not None):
